@@ -43,7 +43,9 @@ pub fn cosine(f1: &Feature, f2: &Feature) -> f32 {
         .take(len)
         .fold(0.0_f32, |acc, a| acc + a.mul(a).reduce_add());
 
-    divided / (f1_divisor * f2_divisor).sqrt()
+    // the product of the two squared norms can leave the f32 range although both norms are
+    // representable, hence the norms are multiplied, not the squared norms
+    divided / (f1_divisor.sqrt() * f2_divisor.sqrt())
 }
 
 #[cfg(test)]
